@@ -37,10 +37,29 @@ def r18_1(F, R):
                 read = {field for owner, variant, field, place, node, is_store in projections(fn) if owner == T}
                 for cid in F.closures_of(fn.id):
                     read |= {field for owner, variant, field, place, node, is_store in projections(F.fns[cid]) if owner == T}
+                lang_impl_types = {f2.impl.get("self_adt") for f2 in F.fns.values() if f2.impl and f2.impl.get("trait") == TO_LANG}
+                all_proj = list(projections(fn))
+                for cid in F.closures_of(fn.id):
+                    all_proj += list(projections(F.fns[cid]))
                 for fld in adt["variants"][0]["fields"]:
                     key = "%s.%s/print" % (T, fld["name"])
                     if fld["name"] in read:
                         R.ok("R18.1", key, "read by to_box_lang", loc, how="field-coverage")
+                        # a field that is itself a plain workspace struct without its own converter (e.g. common::Glue):
+                        # every one of its fields must be read here as well
+                        sub = strip_generics(fld["ty"])
+                        if sub in F.adts and F.adts[sub]["kind"] == "struct" and sub not in lang_impl_types and not fld["ty"].startswith("alloc::"):
+                            sub_read = {field for owner, variant, field, place, node, is_store in all_proj if owner == sub}
+                            if not sub_read:
+                                continue  # converted as a whole value (e.g. `self.width.into()`), nothing to cross-wire
+                            for sf in F.adts[sub]["variants"][0]["fields"]:
+                                skey = "%s.%s.%s/print" % (T, fld["name"], sf["name"])
+                                if sf["name"] in sub_read:
+                                    R.ok("R18.1", skey, "read by to_box_lang", loc, how="field-coverage")
+                                elif skey in drops:
+                                    R.ok("R18.1", skey, "audited drop: " + drops[skey], loc, how="audited")
+                                else:
+                                    R.violation("R18.1", skey, "to_box_lang for %s never reads `%s.%s`: another field is printed in its place or it is lost" % (T, fld["name"], sf["name"]), loc)
                     elif key in drops:
                         R.ok("R18.1", key, "audited drop: " + drops[key], loc, how="audited")
                     else:
